@@ -962,7 +962,13 @@ def rejections(facts, key):
         ga = [(gb, canon_atom(a)) for gb, a in atoms_at(body, b)]
         row = {"bb": b, "site": body.site(b), "catoms": [c for _, c in ga], "gatoms": ga, "fn": key}
         k, v = cls
-        if k == "err":
+        if k == "err" and v[0] == "err" and v[1][0] == "call":
+            # `match f(x) { Ok(v) => .., Err(e) => return Err(e) }`: the error of f(x) handed on unchanged -- what `f(x)?` does
+            # when no conversion is involved
+            c = v[1]
+            row.update(kind="propagate", callee=c[1], args=tuple(_value(y) for y in c[2]), callterm=c, via="match-err")
+            rows.append(row)
+        elif k == "err":
             row.update(kind="err", error=error_const(v), errterm=v, triggers=[c for _, c in edge_triggers(body, b)])
             rows.append(row)
         elif k == "propagate":
